@@ -59,14 +59,17 @@ abbrev Cache := List ((Str × Str) × Str)
 /-- `shell cmd dir env`: what the command prints -/
 abbrev Shell := Str → Str → Env → Str
 
-/-- what surrounds the resolution: the shell and the process environment -/
+/-- what surrounds the resolution: the shell, the process environment and whether the
+env-precedence experiment (`TASK_X_ENV_PRECEDENCE=1`) is on -/
 structure World where
   shell : Shell
   osEnv : Env := []
+  prec : Bool := false
 
 /-- the environment handed to an `sh:` command (`env.GetFromVars(result)`): the process
-environment plus the resolved variables it does not already set -/
-def shEnv (w : World) (e : Env) : Env := commandEnv w.osEnv e false
+environment plus the resolved variables it does not already set — or, under the
+env-precedence experiment, plus ALL resolved variables, which then win -/
+def shEnv (w : World) (e : Env) : Env := commandEnv w.osEnv e w.prec
 
 /-- `HandleDynamicVar`: empty command ⇒ empty; cached ⇒ cached value; else run and cache -/
 def dynamic (shell : Shell) (c : Cache) (cmd dir : Str) (e : Env) : Str × Cache :=
